@@ -91,6 +91,7 @@ struct ScriptPeer {
   Snap last;                    // snapshot before the current op
   std::string last_emitted;     // last Z string emitted
   uint32_t conn_no = 0;
+  bool nq_update = false;       // update_interested re-marked interest while the peer had us unchoked, without queueing
 };
 
 struct Case {
@@ -105,6 +106,7 @@ struct Case {
   int nreq = 0, ncancel = 0, nhave_out = 0, nother = 0;
   uint32_t conn_counter = 0;
   int64_t quiet_secs = 0;
+  std::string stuck;
   explicit Case(Session& s) : S(s) {}
 };
 
@@ -304,6 +306,11 @@ void after_op(Case& c, const std::string& injected, bool timed) {
               (int)pcb->m_down_choke.snubbed(), (int)pcb->m_down_interested, (int)pcb->m_send_interested, (int)pcb->m_tryRequest,
               (int)pcb->m_down_unchoked, (unsigned)pcb->m_down_stall);
     }
+  for (int p = 0; p < 4; p++) {
+    if (!c.peer[p].connected || !c.peer[p].nq_update) continue;
+    torrent::PeerConnectionBase* pcb = find_conn(c.S, c.T, p, c.peer[p].port);
+    if (pcb == nullptr || pcb->m_down_choke.queued()) c.peer[p].nq_update = false;
+  }
   std::string y = y_string(c);
   if (y != c.lastY) { flush_quiet(c); c.ev.push_back("Y:" + y); c.lastY = y; }
 }
@@ -341,7 +348,18 @@ bool do_op(Case& c, const std::string& o, std::string& err) {
     torrent::FileList* fl = c.T->dl.file_list();
     if (fi >= fl->size_files()) return true;
     (*fl)[fi]->set_priority(pr == 0 ? torrent::PRIORITY_OFF : pr == 2 ? torrent::PRIORITY_HIGH : torrent::PRIORITY_NORMAL);
+    bool cand[4] = {false, false, false, false};
+    for (int q = 0; q < 4; q++) {
+      if (!c.peer[q].connected) continue;
+      torrent::PeerConnectionBase* pcb = find_conn(c.S, c.T, q, c.peer[q].port);
+      cand[q] = pcb != nullptr && !pcb->m_down_interested && pcb->m_down_unchoked && !pcb->m_down_choke.queued();
+    }
     c.T->dl.update_priorities();
+    for (int q = 0; q < 4; q++) {
+      if (!cand[q]) continue;
+      torrent::PeerConnectionBase* pcb = find_conn(c.S, c.T, q, c.peer[q].port);
+      if (pcb != nullptr && pcb->m_down_interested && !pcb->m_down_choke.queued()) c.peer[q].nq_update = true;
+    }
     after_op(c, "W:" + wanted_bits(c), false);
     return true;
   }
@@ -474,6 +492,36 @@ bool do_op(Case& c, const std::string& o, std::string& err) {
       if (pcb) fprintf(stderr, " seeder=%d cache_enabled=%d", (int)pcb->m_peer_chunks.is_seeder(), (int)pcb->m_peer_chunks.download_cache()->is_enabled());
       fprintf(stderr, "\n");
     }
+    if (!finished()) {
+      // diagnostics for the oracle's classification of a failed completion phase (private state, read only)
+      torrent::PeerConnectionBase* pcb = sp.connected ? find_conn(c.S, c.T, p, sp.port) : nullptr;
+      std::ostringstream d;
+      if (pcb == nullptr) d << "noconn";
+      else {
+        auto* data = c.T->main()->file_list()->mutable_data();
+        auto* tl = c.T->main()->delegator()->transfer_list();
+        int nmiss = 0, nlisted = 0, nuntouched = 0;
+        for (uint32_t i = 0; i < c.T->piece_count(); i++) {
+          bool wanted = data->normal_priority()->has(i) || data->high_priority()->has(i);
+          if (c.T->dl.file_list()->bitfield()->get(i) || !wanted || !pcb->m_peer_chunks.bitfield()->get(i)) continue;
+          nmiss++;
+          if (tl->find(i) != tl->end()) nlisted++;
+          if (data->untouched_bitfield()->get(i)) nuntouched++;
+        }
+        Snap sn = take_snap(c, p);
+        int valid_unheld = 0, invalid = 0;
+        auto held = [&](const Ent& e) { for (auto& r : sp.inq) if (r.i == e.i && r.o == e.o) return true; return false; };
+        for (int k = 0; k < 4; k++)
+          for (auto& e : sn.b[k]) {
+            if (!e.valid) invalid++;
+            else if (k != 3 && !held(e)) valid_unheld++;
+          }
+        d << "int" << (int)pcb->m_down_interested << ".unch" << (int)pcb->m_down_unchoked << ".dq" << (int)pcb->m_down_choke.queued()
+          << ".nq" << (int)sp.nq_update << ".miss" << nmiss << ".listed" << nlisted << ".untouched" << nuntouched
+          << ".unheld" << valid_unheld << ".invalid" << invalid;
+      }
+      c.stuck = d.str();
+    }
     c.ev.push_back(std::string("QD:") + (finished() ? "1" : "0"));
   } else {
     err = "BADCASE";
@@ -537,6 +585,7 @@ std::string run_case(Session& S, const std::string& line) {
     first = false;
   }
   out << " done=" << qd << " amb=" << c.ambiguous;
+  if (!c.stuck.empty()) out << " stuck=" << c.stuck;
   if (!err.empty()) out << " " << err;
   out << " || comp=" << c.T->completed_bits() << " nreq=" << c.nreq << " ncancel=" << c.ncancel << " nhave=" << c.nhave_out
       << " other=" << c.nother;
